@@ -255,7 +255,7 @@ func cmdVerify(mode string, args []string) {
 			continue
 		}
 		for _, n := range fe.notes {
-			fmt.Printf("NOTE %s: %s\n", fe.fnName(), n)
+			fmt.Fprintf(os.Stderr, "NOTE %s: %s\n", fe.fnName(), n)
 		}
 		if *verbose {
 			for _, h := range fe.havocs {
